@@ -3,7 +3,7 @@
 //
 //	net <mem|file> <init> <chunks> <eof|idle|err> =>  the same for a scripted connection (pauses between chunks, three endings)
 //	bytes <mem|file> <init> <hexstream>      =>  the same observation for ONE raw byte stream, then EOF
-//	sess <mem|file>[:<cap>] <init> <events>  =>  <reply> ... S<box>=<handle>:<size>. ...
+//	sess <mem|file>[:<cap>[:<maxkb>]] <init> <events>  =>  <reply> ... S<box>=<handle>:<size>. ...
 //
 // init:   - | box;box..      box = <namehex>:<srchex>.<srchex>..   (messages delivered before the session)
 // events: - | ev,ev,..       c<hex> client bytes (any chunking) | d<name>:<src> delivery |
@@ -204,13 +204,17 @@ func (w *world) project(word string, unit []byte) string {
 func newStore(flavour string) (storage.Store, func()) {
 	ext := extension.NewHost()
 	capN := 0
-	if i := strings.IndexByte(flavour, ':'); i >= 0 {
-		capN = vh.AtoI(flavour[i+1:])
-		flavour = flavour[:i]
+	params := map[string]string{}
+	if parts := strings.Split(flavour, ":"); len(parts) > 1 {
+		flavour = parts[0]
+		capN = vh.AtoI(parts[1])
+		if len(parts) > 2 && parts[2] != "0" {
+			params["maxkb"] = parts[2] // the memory store's store-wide size limit
+		}
 	}
 	switch flavour {
 	case "mem":
-		s, err := mem.New(config.Storage{MailboxMsgCap: capN}, ext)
+		s, err := mem.New(config.Storage{MailboxMsgCap: capN, Params: params}, ext)
 		if err != nil {
 			panic(err)
 		}
